@@ -911,6 +911,73 @@ def c07(rac, units, tier, seed):
 STANDINS["C07"] = c07
 
 
+_DISP = re.compile(r"^(-?)(\d+)(?:\.(\d+))?(…?)(?:e(-?\d+))?$")
+
+
+def display_check(text, x, limit):
+    """-> None if `text` is a faithful rendering of the Fraction x, else a reason.  Oracle written from the property text:
+    read back (sign, digits, exponent) = x cut off toward zero at the last printed digit; mark present <=> something non-zero was cut."""
+    m = _DISP.match(text)
+    if not m:
+        return "not of the form [-]digits[.digits][…][e[-]digits]"
+    sign, ip, fp, mark, ex = m.groups()
+    fp = fp or ""
+    e = int(ex) if ex else 0
+    printed = F(int(ip + fp), 10 ** len(fp)) * F(10) ** e
+    ulp = F(1, 10 ** len(fp)) * F(10) ** e
+    ax = abs(x)
+    if x < 0 and printed != 0 and sign != "-":
+        return "sign lost"
+    if x >= 0 and sign == "-":
+        return "spurious minus sign"
+    if printed > ax:
+        return f"printed magnitude {printed} exceeds the exact value"
+    if ax - printed >= ulp:
+        return f"not the exact value cut at the last printed digit (off by >= one unit of the last digit)"
+    if (mark == "…") != (printed != ax):
+        return "continuation mark missing although non-zero digits were cut off" if printed != ax else "continuation mark although nothing non-zero was cut off"
+    return None
+
+
+def c08(rac, units, tier, seed, known_p=()):
+    N, D, LIM, ELIM = (40, 40, 8, 6) if tier == "quick" else (120, 120, 14, 10)
+    rep = Report("C08 Display::fmt / format_big / format_whole (iterator pipelines into fmt::Formatter)", f"all n/d with |n| <= {N}, 1 <= d <= {D} times 10^k (k in -12..12 step 3), limits 1..{LIM}, exponent limits 1..{ELIM} (sampled to a cap) + seeded random big/small rationals + boundary family; read-back oracle from the property text")
+    rnd = random.Random(seed)
+    vals = set()
+    for n in range(-N, N + 1):
+        for d in range(1, D + 1):
+            vals.add(F(n, d))
+    vals = sorted(vals)
+    cases = []
+    cap = 30000 if tier == "quick" else 300000
+    for _ in range(cap):
+        x = rnd.choice(vals) * F(10) ** rnd.choice([0, 0, 0, 3, -3, 6, -6, 9, -9, 12, -12])
+        cases.append((x, rnd.randint(1, LIM), rnd.randint(1, ELIM)))
+    for _ in range(cap // 10):
+        x = F(rnd.randint(-10 ** rnd.randint(1, 25), 10 ** rnd.randint(1, 25)), rnd.randint(1, 10 ** rnd.randint(0, 25)))
+        cases.append((x, rnd.randint(1, LIM), rnd.randint(1, ELIM)))
+    # boundary family: values whose cut falls exactly on / next to the last integer digit, zeros only cut, last digit cut
+    for lim in range(1, LIM + 1):
+        for el in range(1, ELIM + 1):
+            for x in [F(1, 8), F(1, 3), F(123456, 1), F(1234565, 10), F(10 ** 9), F(10 ** 9) + F(1, 2), F(200000001, 2), F(-200000001, 2), F(999999999, 1), F(1, 10 ** 7), F(1234567, 10 ** 7), F(-1, 8), F(31, 2), F(10 ** el), F(10 ** el) - 1, F(10 ** el) + F(1, 10 ** lim), F(1, 10 ** el), F(1, 10 ** (el + 1)), F(15, 10 ** (el + 2))]:
+                cases.append((x, lim, el))
+    ans = rac.ask_many([{"cmd": "display", "n": str(x.numerator), "d": str(x.denominator), "limit": lim, "exp": el} for x, lim, el in cases], chunk=2000)
+    for (x, lim, el), a in zip(cases, ans):
+        key = (x, lim, el)
+        if "panic" in a:
+            rep.ran(key, True)
+            rep.fail("Display panicked", query=f"{x} limit={lim} exponent_limit={el}", expected="text", actual=a["panic"][:120])
+            continue
+        why = display_check(a["s"], x, lim)
+        rep.ran(key, True, dict(value=str(x), limit=lim, exponent_limit=el, text=a["s"]) if len(rep.samples) < 6 and x.denominator > 1 else None)
+        if why:
+            rep.fail(why, query=f"{x} limit={lim} exponent_limit={el}", expected="the exact value cut off toward zero at the last printed digit, mark iff non-zero digits were cut", actual=a["s"])
+    return [rep]
+
+
+STANDINS["C08"] = c08
+
+
 def register(prop):
     def deco(fn):
         STANDINS[prop] = fn
